@@ -448,6 +448,26 @@ Definition verdict_extract_seq_C13 (a : list val) (out : val) : N :=
   | _ => VIOLATES
   end.
 
+(* the same outcome judged by C05: the first strict / lenient pair, and the last pair obtained
+   with rotated members (all values were held until every call of the case had run) *)
+Definition seq_as_extract (first : bool) (v : val) : val :=
+  match v with
+  | VL [srv; u; s; q; _; _; VL [e1; l1; _; _; _; _; e4; l4]; _] =>
+      if first then VL [srv; u; s; q; e1; l1] else VL [srv; u; s; q; e4; l4]
+  | VL [srv; u; s; q; x] => VL [srv; u; s; q; x; x]
+  | _ => v
+  end.
+Definition verdict_extract_seq_C05 (a : list val) (out : val) : N :=
+  match a, out with
+  | [t; fvs; tids; ms; ks; _], VL [VI 0%Z; VL rs] =>
+      let a' := [t; fvs; tids; ms; ks] in
+      let v1 := verdict_extract_C05 a' (VL [VI 0%Z; VL (map (seq_as_extract true) rs)]) in
+      let v2 := verdict_extract_C05 a' (VL [VI 0%Z; VL (map (seq_as_extract false) rs)]) in
+      if (v1 =? VIOLATES) || (v2 =? VIOLATES) then VIOLATES
+      else if (v1 =? HOLDS) && (v2 =? HOLDS) then HOLDS else NOT_JUDGED
+  | _, _ => NOT_JUDGED
+  end.
+
 (* ---------- several verdicts on one case ---------- *)
 Definition combine_verdicts (l : list N) : N :=
   if existsb (N.eqb VIOLATES) l then VIOLATES else
@@ -608,7 +628,8 @@ Definition table_builder : list entry :=
                                  else if p =? 11 then verdict_extract_C11 a o else NOT_JUDGED |};
     {| e_name := "extract_resp"; e_run := run_extract_resp; e_verdict := no_verdict |};
     {| e_name := "extract_seq"; e_run := run_extract_seq;
-       e_verdict := fun p a o => if p =? 13 then verdict_extract_seq_C13 a o else NOT_JUDGED |};
+       e_verdict := fun p a o => if p =? 13 then verdict_extract_seq_C13 a o
+                                 else if p =? 5 then verdict_extract_seq_C05 a o else NOT_JUDGED |};
     {| e_name := "split_seq"; e_run := run_split_seq; e_verdict := verdict_split_seq |};
     {| e_name := "extract_client"; e_run := run_extract_client;
        e_verdict := fun p a o => if p =? 5 then verdict_extract_client_C05 a o else NOT_JUDGED |};
